@@ -1341,6 +1341,9 @@ type RadioTap struct {
 	VendorValues []VendorNamespace
 }
 
+// errRadioTapTruncated is returned when a present bit announces a field that the data does not hold.
+var errRadioTapTruncated = errors.New("RadioTap field extends beyond data")
+
 func (m *RadioTap) LayerType() gopacket.LayerType { return LayerTypeRadioTap }
 
 func (m *RadioTap) DecodeFromBytes(data []byte, df gopacket.DecodeFeedback) error {
@@ -1378,11 +1381,19 @@ func (m *RadioTap) DecodeFromBytes(data []byte, df gopacket.DecodeFeedback) erro
 	vendorNamespace := false
 	for _, present := range m.Present {
 		if radioTapNamespace {
-			rValues, newOffset := RadioTapNamespace{}.decodeRadioTapNamespace(data, offset, present)
+			rValues, newOffset, err := RadioTapNamespace{}.decodeRadioTapNamespace(data, offset, present)
+			if err != nil {
+				df.SetTruncated()
+				return err
+			}
 			m.RadioTapValues = append(m.RadioTapValues, rValues)
 			offset = newOffset
 		} else if vendorNamespace {
-			vValues, newOffset := VendorNamespace{}.decodeVendorNamespace(data, offset, present)
+			vValues, newOffset, err := VendorNamespace{}.decodeVendorNamespace(data, offset, present)
+			if err != nil {
+				df.SetTruncated()
+				return err
+			}
 			m.VendorValues = append(m.VendorValues, vValues)
 			offset = newOffset
 		} else {
@@ -1437,89 +1448,146 @@ func (m *RadioTap) DecodeFromBytes(data []byte, df gopacket.DecodeFeedback) erro
 	return nil
 }
 
-func (m RadioTapNamespace) decodeRadioTapNamespace(data []byte, offset uint16, present RadioTapPresent) (RadioTapNamespace, uint16) {
+func (m RadioTapNamespace) decodeRadioTapNamespace(data []byte, offset uint16, present RadioTapPresent) (RadioTapNamespace, uint16, error) {
 	if present.TSFT() {
 		offset += align(offset, 8)
+		if int(offset)+8 > len(data) {
+			return m, offset, errRadioTapTruncated
+		}
 		m.TSFT = binary.LittleEndian.Uint64(data[offset : offset+8])
 		offset += 8
 	}
 	if present.Flags() {
+		if int(offset)+1 > len(data) {
+			return m, offset, errRadioTapTruncated
+		}
 		m.Flags = RadioTapFlags(data[offset])
 		offset++
 	}
 	if present.Rate() {
+		if int(offset)+1 > len(data) {
+			return m, offset, errRadioTapTruncated
+		}
 		m.Rate = RadioTapRate(data[offset])
 		offset++
 	}
 	if present.Channel() {
 		offset += align(offset, 2)
+		if int(offset)+4 > len(data) {
+			return m, offset, errRadioTapTruncated
+		}
 		m.ChannelFrequency = RadioTapChannelFrequency(binary.LittleEndian.Uint16(data[offset : offset+2]))
 		offset += 2
 		m.ChannelFlags = RadioTapChannelFlags(binary.LittleEndian.Uint16(data[offset : offset+2]))
 		offset += 2
 	}
 	if present.FHSS() {
+		if int(offset)+2 > len(data) {
+			return m, offset, errRadioTapTruncated
+		}
 		m.FHSS = binary.LittleEndian.Uint16(data[offset : offset+2])
 		offset += 2
 	}
 	if present.DBMAntennaSignal() {
+		if int(offset)+1 > len(data) {
+			return m, offset, errRadioTapTruncated
+		}
 		m.DBMAntennaSignal = int8(data[offset])
 		offset++
 	}
 	if present.DBMAntennaNoise() {
+		if int(offset)+1 > len(data) {
+			return m, offset, errRadioTapTruncated
+		}
 		m.DBMAntennaNoise = int8(data[offset])
 		offset++
 	}
 	if present.LockQuality() {
 		offset += align(offset, 2)
+		if int(offset)+2 > len(data) {
+			return m, offset, errRadioTapTruncated
+		}
 		m.LockQuality = binary.LittleEndian.Uint16(data[offset : offset+2])
 		offset += 2
 	}
 	if present.TxAttenuation() {
 		offset += align(offset, 2)
+		if int(offset)+2 > len(data) {
+			return m, offset, errRadioTapTruncated
+		}
 		m.TxAttenuation = binary.LittleEndian.Uint16(data[offset : offset+2])
 		offset += 2
 	}
 	if present.DBTxAttenuation() {
 		offset += align(offset, 2)
+		if int(offset)+2 > len(data) {
+			return m, offset, errRadioTapTruncated
+		}
 		m.DBTxAttenuation = binary.LittleEndian.Uint16(data[offset : offset+2])
 		offset += 2
 	}
 	if present.DBMTxPower() {
+		if int(offset)+1 > len(data) {
+			return m, offset, errRadioTapTruncated
+		}
 		m.DBMTxPower = int8(data[offset])
 		offset++
 	}
 	if present.Antenna() {
+		if int(offset)+1 > len(data) {
+			return m, offset, errRadioTapTruncated
+		}
 		m.Antenna = uint8(data[offset])
 		offset++
 	}
 	if present.DBAntennaSignal() {
+		if int(offset)+1 > len(data) {
+			return m, offset, errRadioTapTruncated
+		}
 		m.DBAntennaSignal = uint8(data[offset])
 		offset++
 	}
 	if present.DBAntennaNoise() {
+		if int(offset)+1 > len(data) {
+			return m, offset, errRadioTapTruncated
+		}
 		m.DBAntennaNoise = uint8(data[offset])
 		offset++
 	}
 	if present.RxFlags() {
 		offset += align(offset, 2)
+		if int(offset)+2 > len(data) {
+			return m, offset, errRadioTapTruncated
+		}
 		m.RxFlags = RadioTapRxFlags(binary.LittleEndian.Uint16(data[offset:]))
 		offset += 2
 	}
 	if present.TxFlags() {
 		offset += align(offset, 2)
+		if int(offset)+2 > len(data) {
+			return m, offset, errRadioTapTruncated
+		}
 		m.TxFlags = RadioTapTxFlags(binary.LittleEndian.Uint16(data[offset:]))
 		offset += 2
 	}
 	if present.RtsRetries() {
+		if int(offset)+1 > len(data) {
+			return m, offset, errRadioTapTruncated
+		}
 		m.RtsRetries = uint8(data[offset])
 		offset++
 	}
 	if present.DataRetries() {
+		if int(offset)+1 > len(data) {
+			return m, offset, errRadioTapTruncated
+		}
 		m.DataRetries = uint8(data[offset])
 		offset++
 	}
 	if present.MCS() {
+		if int(offset)+3 > len(data) {
+			return m, offset, errRadioTapTruncated
+		}
 		m.MCS = RadioTapMCS{
 			RadioTapMCSKnown(data[offset]),
 			RadioTapMCSFlags(data[offset+1]),
@@ -1529,6 +1597,9 @@ func (m RadioTapNamespace) decodeRadioTapNamespace(data []byte, offset uint16, p
 	}
 	if present.AMPDUStatus() {
 		offset += align(offset, 4)
+		if int(offset)+8 > len(data) {
+			return m, offset, errRadioTapTruncated
+		}
 		m.AMPDUStatus = RadioTapAMPDUStatus{
 			Reference: binary.LittleEndian.Uint32(data[offset:]),
 			Flags:     RadioTapAMPDUStatusFlags(binary.LittleEndian.Uint16(data[offset+4:])),
@@ -1538,6 +1609,9 @@ func (m RadioTapNamespace) decodeRadioTapNamespace(data []byte, offset uint16, p
 	}
 	if present.VHT() {
 		offset += align(offset, 2)
+		if int(offset)+12 > len(data) {
+			return m, offset, errRadioTapTruncated
+		}
 		m.VHT = RadioTapVHT{
 			Known:     RadioTapVHTKnown(binary.LittleEndian.Uint16(data[offset:])),
 			Flags:     RadioTapVHTFlags(data[offset+2]),
@@ -1560,6 +1634,9 @@ func (m RadioTapNamespace) decodeRadioTapNamespace(data []byte, offset uint16, p
 	}
 	if present.HE() {
 		offset += align(offset, 2)
+		if int(offset)+12 > len(data) {
+			return m, offset, errRadioTapTruncated
+		}
 		m.HE = RadiotapHE{
 			Data1: RadiotapHEData1(binary.LittleEndian.Uint16(data[offset:])),
 			Data2: RadiotapHEData2(binary.LittleEndian.Uint16(data[offset+2:])),
@@ -1571,12 +1648,15 @@ func (m RadioTapNamespace) decodeRadioTapNamespace(data []byte, offset uint16, p
 		offset += 12
 	}
 
-	return m, offset
+	return m, offset, nil
 }
 
-func (v VendorNamespace) decodeVendorNamespace(data []byte, offset uint16, present RadioTapPresent) (VendorNamespace, uint16) {
+func (v VendorNamespace) decodeVendorNamespace(data []byte, offset uint16, present RadioTapPresent) (VendorNamespace, uint16, error) {
 	offset += align(offset, 2)
 
+	if int(offset)+8 > len(data) {
+		return v, offset, errRadioTapTruncated
+	}
 	v.OUI = data[offset : offset+3]
 	offset += 4
 
@@ -1586,10 +1666,13 @@ func (v VendorNamespace) decodeVendorNamespace(data []byte, offset uint16, prese
 	v.SkipLength = binary.LittleEndian.Uint16(data[offset:])
 	offset += 2
 
-	v.Contents = data[offset : offset+v.SkipLength]
+	if int(offset)+int(v.SkipLength) > len(data) {
+		return v, offset, errRadioTapTruncated
+	}
+	v.Contents = data[offset : int(offset)+int(v.SkipLength)]
 	offset += v.SkipLength
 
-	return v, offset
+	return v, offset, nil
 }
 
 func (m RadioTap) SerializeTo(b gopacket.SerializeBuffer, opts gopacket.SerializeOptions) error {
